@@ -92,29 +92,36 @@ fn merge_out(r: &Report, out: &StepOut, hist: &[Op]) {
         r.counter(k, *n);
     }
     r.nontrivial_many(out.nontrivial.iter().copied());
-    for (sig, extra) in &out.viol {
-        if sig.starts_with("MACHINERY:") {
-            r.machinery_error(&format!("{sig} history={:?} {extra}", hist.iter().map(|o| o.enc()).collect::<Vec<_>>()));
-            continue;
-        }
-        let family = sig.split(':').next().unwrap_or("").to_string();
-        let sig2 = {
-            let mut g = FAMILIES.lock().unwrap();
-            let v = g.entry(family.clone()).or_default();
-            if v.iter().any(|x| x == sig) {
-                sig.clone()
-            } else if v.len() < 2 {
-                v.push(sig.clone());
-                sig.clone()
-            } else {
-                format!("{family}:(further contexts)")
-            }
-        };
-        r.violation(
-            &sig2,
-            json!({"case": {"history": hist.iter().map(|o| o.enc()).collect::<Vec<_>>()}, "what": extra, "full_signature": sig}),
-        );
+    // One violation per executed step: the first one recorded is the primary (checks run in causal
+    // order: outcome of the call, then what it left behind); the others are its consequences and
+    // travel in the detail, so a different defect keeps a different signature.
+    let mut it = out.viol.iter();
+    let Some((sig, extra)) = it.next() else {
+        return;
+    };
+    let consequences: Vec<&String> = it.map(|(s, _)| s).collect();
+    if sig.starts_with("MACHINERY:") {
+        r.machinery_error(&format!("{sig} history={:?} {extra}", hist.iter().map(|o| o.enc()).collect::<Vec<_>>()));
+        return;
     }
+    let family = sig.split(':').next().unwrap_or("").to_string();
+    let sig2 = {
+        let mut g = FAMILIES.lock().unwrap();
+        let v = g.entry(family.clone()).or_default();
+        if v.iter().any(|x| x == sig) {
+            sig.clone()
+        } else if v.len() < 3 {
+            v.push(sig.clone());
+            sig.clone()
+        } else {
+            format!("{family}:(further contexts)")
+        }
+    };
+    r.violation(
+        &sig2,
+        json!({"case": {"history": hist.iter().map(|o| o.enc()).collect::<Vec<_>>()}, "what": extra, "full_signature": sig,
+               "consequences_in_the_same_step": consequences}),
+    );
 }
 
 fn explore(r: &Report, fx: &Fx, phase: &str, menu: &[Op], max_depth: usize, cap_frac: f64) -> bool {
@@ -180,7 +187,7 @@ fn explore(r: &Report, fx: &Fx, phase: &str, menu: &[Op], max_depth: usize, cap_
                     let calls = t.store_calls;
                     let committed = t.committed;
                     outs.push(t);
-                    if committed && op.is_lifecycle() {
+                    if committed && op.is_lifecycle() && outs.last().map_or(false, |t: &TransOut| t.out.viol.is_empty()) {
                         for k in 0..calls {
                             for mode in [Mode::Fail, Mode::Crash, Mode::AckLost] {
                                 let f = Op::Fault(Box::new(op.clone()), k as u8, mode);
@@ -207,6 +214,9 @@ fn explore(r: &Report, fx: &Fx, phase: &str, menu: &[Op], max_depth: usize, cap_
                     r.sample(json!({"history": t.hist.iter().map(|o| o.enc()).collect::<Vec<_>>(),
                         "lifecycle_after": t.content, "index_root": mc::hex(&t.root[..8]),
                         "store_calls_of_last_op": t.store_calls}));
+                }
+                if !t.out.viol.is_empty() {
+                    continue; // do not expand (or compare roots) beyond a violating step
                 }
                 // root digest is a function of (and only of) the lifecycle content
                 match root_to_content.get(&t.root) {
